@@ -106,3 +106,18 @@ def valve_trace(pid, tier, seed, w, v, lay, tp):
     validated, ts = validate_trace(v, "Trace_ValveA2S.tla", "Trace_ValveA2S.cfg", tf, splitter="Call", max_rounds=8)
     ts = dict(ts, cfg="Trace_ValveA2S.cfg", events=r.get("extra", {}).get("events"))
     return r, validated, ts
+
+
+def exchange_trace(pid, tier, seed, w, v, lay, tp):
+    """implementation -> specification for the single-unit protocols: random recorded exchanges (retries up to 5, random
+    reactions at every receive position, FFOW challenge rounds) validated line by line against Trace_Exchange.tla."""
+    quick = tier != "thorough"
+    tf = f"{w}/exchange_trace.ndjson"
+    if not quick:
+        lay, tp, _ = tables("quick", workdir(os.path.basename(w) + "_q"))
+    r = vh(["exchange-trace", "--layouts", lay, "--templates", tp, "--runs", 6000 if quick else 150000, "--seed", seed,
+            "--out-trace", tf], name=pid.lower() + "xt")
+    v.add_report(r, "recorded single-unit exchanges")
+    validated, ts = validate_trace(v, "Trace_Exchange.tla", "Trace_Exchange.cfg", tf, splitter="Call", max_rounds=8)
+    ts = dict(ts, cfg="Trace_Exchange.cfg", events=r.get("extra", {}).get("events"))
+    return r, validated, ts
